@@ -124,7 +124,7 @@ def _damage(st, sw, text, cfg, stats_features):
 
 # ---- focused mode: single statements, single-token faults, enumerated -----------------
 _FOCUS = None
-_FOCUS_OPS = ["delete", "duplicate", "swap_next", "punct::", "punct:,", "punct:(", "punct:)",
+_FOCUS_OPS = ["delete", "duplicate", "swap_next", "split", "punct::", "punct:,", "punct:(", "punct:)",
               "punct:=", "punct:'", "keyword:end"]
 
 
@@ -135,7 +135,7 @@ def _focus_sources():
         from ..gen import zoo
 
         out = []
-        for text in zoo.SPEC:
+        for text in zoo.SPEC + zoo.USES:
             if text != "enum, bind(c)":
                 out.append(("f2003", "spec", [text]))
         for text in zoo.SPEC_F08:
@@ -205,6 +205,10 @@ def _focused_case(run_seed, cfg, case):
             del new[i]
         elif op == "duplicate":
             new.insert(i, new[i])
+        elif op == "split":
+            if len(new[i]) >= 2:
+                cut = 1 + (i + len(new[i])) % (len(new[i]) - 1)
+                new[i] = new[i][:cut] + " " + new[i][cut:]
         elif op == "swap_next":
             j = next((x for x in sig if x > i), None)
             if j is not None and j < len(new):
